@@ -726,6 +726,36 @@ var serviceNames = [][2]string{ // class, name
 	{"hash", "a #b"},
 }
 
+// breakoutNames: every way of leaving a quoted context (all sequences of up to two of
+// ' " \) followed by a command and by every way of neutralising the rest of the line
+// (nothing, a comment, a re-opened quote of either kind).  A break-out whose remainder is
+// a syntax error runs nothing (sh parses the line first) - the comment and the
+// re-balanced forms are the ones that execute.
+func breakoutNames() [][2]string {
+	var out [][2]string
+	quotes := []string{"'", `"`, `\`}
+	var seqs []string
+	for _, a := range quotes {
+		seqs = append(seqs, a)
+		for _, b := range quotes {
+			seqs = append(seqs, a+b)
+		}
+	}
+	closers := map[string]string{"none": "", "comment": "#", "reopen-squote": "echo '", "reopen-dquote": `echo "`, "reopen-both": `echo "'`, "reopen-both2": `echo '"`}
+	var cn []string
+	for k := range closers {
+		cn = append(cn, k)
+	}
+	sort.Strings(cn)
+	for _, q := range seqs {
+		for _, k := range cn {
+			cls := "breakout/" + strings.NewReplacer("'", "s", `"`, "d", `\`, "b").Replace(q) + "/" + k
+			out = append(out, [2]string{cls, "x" + q + ";touch CANARY;" + closers[k]})
+		}
+	}
+	return out
+}
+
 func runBuild(r *ev.Run, k Constants, wi, wn int, deadline time.Time) {
 	s, err := newSandbox()
 	defer s.close()
@@ -786,7 +816,12 @@ func runBuild(r *ev.Run, k Constants, wi, wn int, deadline time.Time) {
 							continue
 						}
 						base := normalise(res.Invs)
-						for _, n := range serviceNames {
+						names := serviceNames
+						if r.Thorough() || (!debug && !logs && tr == TransportHTTP) {
+							// the break-out product: every build combination in thorough, one per architecture in quick
+							names = append(append([][2]string{}, serviceNames...), breakoutNames()...)
+						}
+						for _, n := range names {
 							c2 := c
 							c2.NameClass, c2.Name = n[0], n[1]
 							res2 := s.run(c2)
